@@ -69,6 +69,27 @@ func runC18(c *Ctx) {
 	r.Rule("G6", "a reused decoder starts clean: fields written by Decode are reset by Init", 8)
 	m := c.fx()
 
+	// ---- G7 -----------------------------------------------------------------
+	// Token post-processing writes into the Operation a token carries
+	// (UpdateAssign, and the parser keeps the object in the tree). An Operation
+	// built once per lexer rule and handed to every token of that rule is state
+	// shared between all expressions ever parsed in the process.
+	r.Rule("G7", "every lexer action allocates the Operation objects of its token itself", 100)
+	if c.tables() {
+		for _, lr := range c.Lex.Rules {
+			for ti, t := range lr.Tokens {
+				key := fmt.Sprintf("rule[%q]/token#%d", lr.Pattern, ti)
+				if len(t.Shared) == 0 {
+					r.Discharge("G7", key, c.P.pos(lr.Pos), "Operation / AssignOperation are allocated per token inside "+t.Fn)
+				} else {
+					r.Finding("G7", key, c.P.pos(lr.Pos), fmt.Sprintf("the token's Operation object %s is shared by every token this rule emits; handleToken writes UpdateAssign into it, so parsing one expression changes trees parsed earlier (eval, load-time parses, later documents)", strings.Join(t.Shared, ", ")))
+				}
+			}
+		}
+	}
+
+	ruleB1(c, "G8", 2)
+
 	// ---- G1 -----------------------------------------------------------------
 	roots := evaluationEntryPoints(c)
 	r.Analysed["evaluation_entry_points"] = len(roots)
